@@ -53,6 +53,7 @@ class Graph:
     def __init__(self, ctx: core.Ctx):
         self.ctx = ctx
         self.mods = {m: ctx.parse(rel) for m, rel in FILES.items()}
+        self.generator_cls = None      # class that `generator.<method>()` resolves to while walking a C++ entry point
 
     def func(self, mod, qual) -> Optional[ast.FunctionDef]:
         t = self.mods[mod]
@@ -82,11 +83,15 @@ class Graph:
                         tgt = (mod, f"{cls}.{f.attr}")
                     elif f.value.id in self.mods and core.find_func(self.mods[f.value.id], f.attr) is not None:
                         tgt = (f.value.id, f.attr)
+                    elif f.value.id == "generator" and self.generator_cls and self.func(mod, f"{self.generator_cls}.{f.attr}") is not None:
+                        tgt = (mod, f"{self.generator_cls}.{f.attr}")
+                    elif f.value.id == "fragments":
+                        pass
                 if tgt:
                     out.append((idx, tgt[0], tgt[1], c))
         return out
 
-    def reach(self, mod, qual, stop=("_compile_impl",)):
+    def reach(self, mod, qual, stop=()):
         """functions reachable from the entry before the first output action, in call order"""
         seen, order = set(), []
 
@@ -132,6 +137,10 @@ def guards_of(mod, qual, fn) -> List[Guard]:
                 f = s.value.func
                 if isinstance(f, ast.Name) and f.id == "assert_valid_covariance":
                     out.append(Guard(mod, qual, s, s.value, True, list(ctxs), counter[0]))
+            if isinstance(s, (ast.Assign, ast.Expr, ast.Return)) and getattr(s, "value", None) is not None:
+                for c in ast.walk(s.value):
+                    if isinstance(c, ast.Call) and isinstance(c.func, ast.Attribute) and c.func.attr == "from_dict" and c.args:
+                        out.append(Guard(mod, qual, s, c, True, list(ctxs), counter[0]))
     walk(fn.body, [])
     return out
 
@@ -268,6 +277,19 @@ def classify(g: Guard, fn, graph: Graph) -> List[str]:
             it = loops[-1].iter
             if isinstance(it, ast.Call) and isinstance(it.func, ast.Attribute) and it.func.attr in ("items", "values") and role_of(it.func.value, env) == "process_noise":
                 out.append("F4c")
+    # F6:names -- binding the per-sensor noise by name into a named class over that sensor's readings (its constructor refuses unknown names)
+    if isinstance(t, ast.Call) and isinstance(t.func, ast.Attribute) and t.func.attr == "from_dict" and t.args and g.unconditional():
+        if "noise" in ast.unparse(t.args[0]) and ("Covariance" in ast.unparse(t.func.value) or "Reading" in ast.unparse(t.func.value)):
+            out.append("F6:names")
+    # F4d -- every accepted process-noise key is a single control symbol (otherwise the count check F4b proves nothing)
+    if isinstance(t, ast.Call) and isinstance(t.func, ast.Name) and t.func.id == "isinstance" and len(t.args) == 2 and neg and loops \
+            and role_of(loops[-1].iter, env) == "process_noise":
+        ty = t.args[1]
+        names = [ast.unparse(x) for x in (ty.elts if isinstance(ty, ast.Tuple) else [ty])]
+        if names == ["Symbol"]:
+            out.append("F4d")
+        elif "tuple" in names:
+            out.append("F4d:pairs-allowed")
     # F4c via the covariance gate on the assembled matrix
     if isinstance(t, ast.Call) and isinstance(t.func, ast.Name) and t.func.id == "assert_valid_covariance" and t.args and g.unconditional():
         a0 = t.args[0]
@@ -371,7 +393,7 @@ def run(ctx: core.Ctx) -> int:
             ui_cells.setdefault(c, g)
     need_cells = {"python.compile": ["F1:CALIB/STATE", "F1:CONTROL/STATE", "F1:CALIB/CONTROL", "F2:size", "F2:keys", "F3"],
                   "cpp.compile": ["F1:CALIB/STATE", "F1:CONTROL/STATE", "F1:CALIB/CONTROL", "F2:size", "F2:keys", "F3"]}
-    ekf = ["F1:CALIB/STATE", "F1:CONTROL/STATE", "F1:CALIB/CONTROL", "F2:size", "F2:keys", "F3", "F4a", "F4b", "F4c", "F5", "F6:keys", "F6:size"]
+    ekf = ["F1:CALIB/STATE", "F1:CONTROL/STATE", "F1:CALIB/CONTROL", "F2:size", "F2:keys", "F3", "F4a", "F4b", "F4c", "F4d", "F5", "F6:keys", "F6:size", "F6:names"]
     need_cells["python.compile_ekf"] = ekf
     need_cells["cpp.compile_ekf"] = ekf
     matrix = {}
@@ -382,6 +404,7 @@ def run(ctx: core.Ctx) -> int:
         cells: Dict[str, Guard] = dict(ui_cells)
         erasable = []
         unclassified = list(ui_unclassified)
+        graph.generator_cls = "ExtendedKalmanFilter" if name.endswith("_ekf") else "Model"
         for m, q, f in graph.reach(mod, name):
             for g in guards_of(m, q, f):
                 all_guards += 1
@@ -391,6 +414,13 @@ def run(ctx: core.Ctx) -> int:
                 for c in cs:
                     if c == "F5:erasable":
                         erasable.append(g)
+                    elif c == "F4d:pairs-allowed":
+                        ctx.oblige("VALID-MATRIX", ent, "process-noise keys are single control symbols", False, file=FILES[g.mod], func=g.qual,
+                                   construct="F4d pairs allowed",
+                                   msg="(control, control) pair keys pass the process-noise key gate, so `len(process_noise) == number of controls` no longer "
+                                       "shows that every control has a noise entry: a definition with one control's noise replaced by a pair entry is accepted",
+                                   line=g.line)
+                        cells.setdefault("F4d", g)
                     else:
                         cells.setdefault(c, g)
         for g in erasable:
@@ -406,7 +436,8 @@ def run(ctx: core.Ctx) -> int:
             if g is None:
                 # a guard about this fault class exists but its form is outside the recognisers: that is an analysis limit, not a finding
                 kw = {"F1": ("isdisjoint", "intersection", "&"), "F2": ("state_model",), "F3": ("calibration",), "F4a": ("process_noise",),
-                      "F4b": ("process_noise",), "F4c": ("process_noise", "noise"), "F5": ("free_symbols",), "F6": ("sensor_noises",)}[c.split(":")[0]]
+                      "F4b": ("process_noise",), "F4c": ("process_noise", "noise"), "F4d": ("isinstance",), "F5": ("free_symbols",),
+                      "F6": ("sensor_noises",)}[c.split(":")[0]]
                 near = []
                 for ug, uf in unclassified:
                     e = expand(ug, uf)
@@ -464,5 +495,5 @@ def run(ctx: core.Ctx) -> int:
 def _explain(c):
     return {"F1": "overlapping state / control / calibration sets", "F2": "update expressions do not cover the state exactly",
             "F3": "calibration values do not match the declared calibration symbols", "F4a": "process noise for something that is not a declared control",
-            "F4b": "missing process noise", "F4c": "negative process noise", "F5": "sensor model depends on controls / undeclared symbols",
+            "F4b": "missing process noise", "F4c": "negative process noise", "F4d": "process-noise keys that are not single controls", "F5": "sensor model depends on controls / undeclared symbols",
             "F6": "sensor noise does not match the sensors and their readings"}[c.split(":")[0]]
